@@ -121,6 +121,11 @@ M = [
  ("c07_natural_order_unsynchronised_read", "C07", "read-before-once", "crates/jxl-vardct/src/hf_pass.rs",
   "    // TODO: Replace this with `OnceLock` when it is available in stable.\n",
   "    if unsafe { !LARGE_NATURAL_ORDER[idx].is_empty() } {\n        return unsafe { &LARGE_NATURAL_ORDER[idx] };\n    }\n"),
+ ("c03_global_predicate_strict", "C03", "split-predicates-differ", "crates/jxl-modular/src/image.rs",
+  "            .take_while(|&(i, (ref info, _))| {\n                i < subimage.nb_meta_channels\n                    || (info.width <= group_dim && info.height <= group_dim)",
+  "            .take_while(|&(i, (ref info, _))| {\n                i < subimage.nb_meta_channels\n                    || (info.width < group_dim && info.height <= group_dim)"),
+ ("c19_transfer_function_codes_crossed", "C19", "try_from:TransferFunction", "crates/jxl-image/src/color.rs",
+  "            17 => Self::Dci,\n            18 => Self::Hlg,", "            17 => Self::Hlg,\n            18 => Self::Dci,"),
  ("c09_eof_exit_without_carry", "C09", "return-without-carry", "crates/jxl-oxide/src/lib.rs",
   "                Err(e) if e.unexpected_eof() => {\n                    self.buffer = buf.to_vec();\n                    return Ok(());\n                }\n                Err(e) => {\n                    return Err(e.into());\n                }\n            };\n            let frame_index = frame.index();",
   "                Err(e) if e.unexpected_eof() => {\n                    return Ok(());\n                }\n                Err(e) => {\n                    return Err(e.into());\n                }\n            };\n            let frame_index = frame.index();"),
